@@ -487,7 +487,7 @@ func foldedBeforeComment(s string) bool {
 
 // ---------- annotations ----------
 
-func nonstrOf(nodes ...*kyaml.RNode) []string {
+func c13NonstrOf(nodes ...*kyaml.RNode) []string {
 	vals := map[string]bool{}
 	for _, n := range nodes {
 		if n != nil && n.YNode() != nil {
@@ -534,7 +534,7 @@ func annotationCases(r *Run, rng *Rng) {
 				a, ok1 := nodeTerm(orig)
 				b, ok2 := nodeTerm(nodes[0])
 				if ok1 && ok2 {
-					r.AddCase(fmt.Sprintf("(A_read 0%%N %s %s %s)", a, b, coqStrList(nonstrOf(orig, nodes[0]))), map[string]string{"kind": "ann-read", "doc": d}, true)
+					r.AddCase(fmt.Sprintf("(A_read 0%%N %s %s %s)", a, b, coqStrList(c13NonstrOf(orig, nodes[0]))), map[string]string{"kind": "ann-read", "doc": d}, true)
 					r.Count("annot", "read")
 				}
 			}
@@ -552,7 +552,7 @@ func annotationCases(r *Run, rng *Rng) {
 		a, ok1 := nodeTerm(orig)
 		b, ok2 := nodeTerm(w)
 		if ok1 && ok2 {
-			r.AddCase(fmt.Sprintf("(A_write %s %s %s %s)", a, b, cls, coqStrList(nonstrOf(orig, w))), map[string]string{"kind": "ann-write", "doc": d}, true)
+			r.AddCase(fmt.Sprintf("(A_write %s %s %s %s)", a, b, cls, coqStrList(c13NonstrOf(orig, w))), map[string]string{"kind": "ann-write", "doc": d}, true)
 			r.Count("annot", "write")
 		}
 		// law: what ByteWriter emits equals the cleared node; reader then writer is the identity up to emptied maps
@@ -578,7 +578,7 @@ func annotationCases(r *Run, rng *Rng) {
 			a, ok1 := nodeTerm(orig)
 			b, ok2 := nodeTerm(n)
 			if ok1 && ok2 {
-				r.AddCase(fmt.Sprintf("(A_read %d%%N %s %s %s)", i, a, b, coqStrList(nonstrOf(orig, n))), map[string]interface{}{"kind": "ann-read-index", "i": i}, true)
+				r.AddCase(fmt.Sprintf("(A_read %d%%N %s %s %s)", i, a, b, coqStrList(c13NonstrOf(orig, n))), map[string]interface{}{"kind": "ann-read-index", "i": i}, true)
 			}
 		}
 	}
